@@ -77,6 +77,18 @@ def check_one(ctx, data, label):
         return True
 
 
+def env_tasks(tier, seed):
+    """What is repeated in an interpreter started with other flags (-bb):
+    truncations, short strings, header shapes, every value of every one-byte
+    field (type tags, string lengths, bit octets) of the representative
+    frames - with and without debug logging."""
+    base = fuzzspace.tasks(tier, seed)
+    pick = [t for t in base
+            if t[0] in ('truncate', 'short', 'shapes', 'nested-short') or
+            (t[0] == 'rewrite' and len(t) == 3)]
+    return pick + [('debug-logging',) + t for t in pick]
+
+
 def run(task, ctx):
     if task[0] == 'warnings-as-errors':
         with lib.warnings_as_errors():
